@@ -138,6 +138,19 @@ pub fn c11_native_selection_operators() {
                 cases += 1;
             }
         }
+        // the best member gets EXACTLY max copies and the worst exactly min, whatever the objective range (rounding of the bonus)
+        for range in 1..=200u32 {
+            for k in 1..=6u32 {
+                let source = vec![ind(0, 0.0), ind(1, range as f64)];
+                let r = run(DeterministicFitnessProportional::new::<P>(1, 1 + k).as_ref(), &source, 0).expect("DeterministicFitnessProportional must not fail on finite objectives");
+                let (best, worst) = (r.iter().filter(|y| *y.solution() == 0).count(), r.iter().filter(|y| *y.solution() == 1).count());
+                if best != (1 + k) as usize || worst != 1 {
+                    eprintln!("COUNTEREXAMPLE DeterministicFitnessProportional min=1 max={} objectives=[0, {range}]: best copied {best}x, worst {worst}x", 1 + k);
+                    panic!("IWO selection violates C11");
+                }
+                cases += 1;
+            }
+        }
         if run(DeterministicFitnessProportional::new::<P>(1, 3).as_ref(), &inf, 0).is_ok() { panic!("DeterministicFitnessProportional must report infinite objective values as an error"); }
         if run(DeterministicFitnessProportional::new::<P>(1, 3).as_ref(), &[], 0).is_ok() { panic!("DeterministicFitnessProportional must report an empty population as an error"); }
     }
